@@ -1,4 +1,4 @@
-import OxyModel.Proofs.Buffer.Loop
+import OxyModel.Proofs.Buffer.Isolation
 import OxyModel.Proofs.Buffer.Header
 
 /-!
@@ -8,6 +8,13 @@ Property theorems only (helper lemmas live in `OxyModel/Proofs/Buffer`).  The mo
 `OxyModel/Model/Buffer.lean`: `Buf.serve cfg req script` = `Buffer.ServeHTTP` for one request, with
 `script k` the behaviour of the protected handler on its `k`-th invocation; `(serve …).views[i]` is
 what invocation `i+1` saw on entry plus the bytes it read from the body.
+
+The request, its URL, its header map and the value slices are *references into a store* (`Buf.Heap`): `copyRequest`
+allocates a new URL object, a new map and new backing arrays (`copyRequestH`), the handler's mutations are writes
+through the references it was given (`handlerHeap`: `Set/Add/Del` re-point map entries, `h[k][0] = v` and
+`URL.Path = …` write in place), and each retry copies again from `ServeHTTP`'s own request in the store as it then
+is.  Sharing (same map, same slices, same URL object) is expressible — see `copyShared` at the end — so isolation
+between attempts is a theorem (frame invariant `Pres`), not a consequence of the model being pure.
 
 All theorems hold for every configuration (thresholds and maxima in any relation, any retry
 expression), every request (any body length, declared or chunked framing, any header list) and every
@@ -34,9 +41,10 @@ theorem C06_body_exact (cfg : Cfg) (req : Req) (script : Nat → Attempt) (i : N
       by_cases hz : req.body.length = 0
       · simp only [hz, beq_self_eq_true, if_true, BodyInv]; exact List.eq_nil_of_length_eq_zero hz
       · simp only [beq_iff_eq, hz, if_false, BodyInv]; exact ⟨hd, hp⟩
-    have := loop_views cfg req script req.body.length c c
+    have := loop_views cfg req (Heap.ofReq req).2 (ofReq_spec req).1 script req.body.length c c
       (fun k v => v.bodyRead = expectedRead req (script k) ∧ v.req = copyRequest req req.body.length)
-      (fun k d => ⟨rfl, rfl⟩) _ 1 _ [] [] rfl hb (fun i v hv => by simp at hv) i v h
+      (Pres (Heap.ofReq req).1) (fun h a hp => stepHeap_pres _ h _ _ a hp)
+      (fun k d h hp => ⟨rfl, viewReq_pres req _ h hp⟩) _ 1 _ [] [] _ rfl hb (Pres.refl _) (fun i v hv => by simp at hv) i v h
     obtain ⟨h1, h2⟩ := this
     refine ⟨?_, ?_, ?_, ?_⟩
     · intro hr; rw [h1]; unfold expectedRead; rw [hr]
@@ -45,10 +53,13 @@ theorem C06_body_exact (cfg : Cfg) (req : Req) (script : Nat → Attempt) (i : N
     · rw [h2]; rfl
 
 /-- **C06 (identical on every attempt, unaffected by earlier attempts)**: take any two handler scripts `s₁ s₂`
-    (they may differ arbitrarily in what earlier attempts read, changed on their request copy, or answered) and
-    any invocation `i+1` under `s₁` and `j+1` under `s₂` (in particular two attempts of the same exchange,
-    `s₁ = s₂`): both see the same method, URL, headers, length and encoding — the request's own — and, if they
-    read the same amount, the same bytes. -/
+    (they may differ arbitrarily in what earlier attempts read from the shared body reader, wrote through the
+    header-map / value-slice / URL pointers of their request copies — `Set`, `Add`, `Del`, in-place element
+    overwrites, `URL.Path = …` — or answered) and any invocation `i+1` under `s₁` and `j+1` under `s₂` (in particular
+    two attempts of the same exchange, `s₁ = s₂`): both see the same method, URL, headers, length and encoding —
+    the client's — and, if they read the same amount, the same bytes.  Proof: the reader is rewound (`BodyInv`
+    across `seek0`) and no write through an attempt's references reaches anything allocated before its copy was
+    made (`stepHeap_pres`), so the next `copyRequest` reads the client's values again (`viewReq_pres`). -/
 theorem C06_attempts_identical (cfg : Cfg) (req : Req) (s₁ s₂ : Nat → Attempt) (i j : Nat) (v w : View)
     (hv : (serve cfg req s₁).views[i]? = some v) (hw : (serve cfg req s₂).views[j]? = some w) :
     v.req = w.req ∧ v.req.method = req.method ∧ v.req.url = req.url ∧
@@ -66,16 +77,17 @@ theorem C06_attempts_identical (cfg : Cfg) (req : Req) (s₁ s₂ : Nat → Atte
         by_cases hz : req.body.length = 0
         · simp only [hz, beq_self_eq_true, if_true, BodyInv]; exact List.eq_nil_of_length_eq_zero hz
         · simp only [beq_iff_eq, hz, if_false, BodyInv]; exact ⟨hd, hp⟩
-      exact loop_views cfg req s req.body.length c c
+      exact loop_views cfg req (Heap.ofReq req).2 (ofReq_spec req).1 s req.body.length c c
         (fun k v => v.bodyRead = expectedRead req (s k) ∧ v.req = copyRequest req req.body.length)
-        (fun k d => ⟨rfl, rfl⟩) _ 1 _ [] [] rfl hb (fun i v hv => by simp at hv) i v h
+        (Pres (Heap.ofReq req).1) (fun h a hp => stepHeap_pres _ h _ _ a hp)
+        (fun k d h hp => ⟨rfl, viewReq_pres req _ h hp⟩) _ 1 _ [] [] _ rfl hb (Pres.refl _) (fun i v hv => by simp at hv) i v h
   obtain ⟨a1, a2⟩ := key s₁ i v hv
   obtain ⟨b1, b2⟩ := key s₂ j w hw
   refine ⟨by rw [a2, b2], by rw [a2]; rfl, by rw [a2]; rfl, by rw [a2]; rfl, ?_⟩
   intro hr; rw [a1, b1]; unfold expectedRead; rw [hr]
 
-/-- **C06 (headers are the request's)**: for a well-formed header map (every key once, no empty value list —
-    what `net/http` produces) the copy every attempt receives equals the request's header map. -/
+/-- **C06 (headers are the request's)**: for a Go map (every key once) the copy every attempt receives equals the
+    request's header map. -/
 theorem C06_headers_exact (cfg : Cfg) (req : Req) (script : Nat → Attempt) (i : Nat) (v : View)
     (hwf : Header.WF req.header) (h : (serve cfg req script).views[i]? = some v) :
     v.req.header = req.header := by
@@ -98,8 +110,28 @@ example : ((serve exCfg exReq exScript).views.map (·.bodyRead)) = [[1, 2, 3], [
 example : ((serve exCfg exReq exScript).views.map (·.req.url)) = ["/p?x=1", "/p?x=1"] := by decide
 example : ((serve exCfg exReq exScript).views.map (·.req.contentLength)) = [10, 10] := by decide
 example : (serve exCfg exReq exScript).created = 1 ∧ (serve exCfg exReq exScript).removed = 1 := by decide
-example : Header.WF exReq.header := by
-  refine ⟨by decide, ?_⟩
-  intro e he; simp [exReq] at he; rcases he with rfl | rfl <;> simp
+example : Header.WF exReq.header := by unfold Header.WF; decide
+
+/-- in-place edits through the copy's references leave the next attempt's view untouched -/
+def exScript2 : Nat → Attempt
+  | 1 => { hdrOps := [HdrOp.set0 "X-A" "evil", HdrOp.setLast "X-A" "evil", HdrOp.add "X-B" "x"],
+           setUrl := some "/mut", status := some 503 }
+  | _ => {}
+
+example : ((serve exCfg exReq exScript2).views.map (·.req.header)) = [exReq.header, exReq.header] := by decide
+
+/-! ### the store can express sharing: with a `copyRequest` that shares, the same handler breaks the next attempt -/
+
+/-- `o := *req` without `CopyURL` / `CopyHeaders`: the handler holds the request's own URL object and header map -/
+def copyShared (h : Heap) (r : ReqRef) (size : Nat) : Heap × OutRef := (h, ⟨r.method, r.urlId, r.mapId, (size : Int), []⟩)
+
+example :
+    let h0 := (Heap.ofReq exReq).1
+    let r := (Heap.ofReq exReq).2
+    let a : Attempt := { hdrOps := [HdrOp.set0 "X-A" "evil"], setUrl := some "/mut" }
+    let h1 := handlerHeap a (copyShared h0 r 10).1 (copyShared h0 r 10).2
+    h1.readMap r.mapId = [("X-A", ["evil", "3"]), ("X-B", ["2"])] ∧ h1.urls r.urlId = "/mut" ∧
+    -- whereas through the real copy the original is untouched
+    (stepHeap r 10 a h0).readMap r.mapId = exReq.header ∧ (stepHeap r 10 a h0).urls r.urlId = "/p?x=1" := by decide
 
 end C06
